@@ -289,7 +289,7 @@ class ExecuteRules:
             == exec_gs(self.registry.gs, rest, context._path, context._language, self.config, self.project_root)
 
 
-@contract(O + "Orchestrator.lint_file", props=["C10", "C14", "C08", "C07"], types=dict(self=OrchT, file_path=PathT),
+@contract(O + "Orchestrator.lint_file", props=["C10", "C14", "C08", "C07", "C15"], types=dict(self=OrchT, file_path=PathT),
           returns=Viols, raises=["ValueError", "OSError"],
           modifies=["self.registry.gs", "self._rules_discovered", "self.ignore_parser._ignore_cache"])
 class LintFile:
